@@ -93,4 +93,8 @@ def MATCH(
             return i or xlerrors.NaExcelError(
                 "No greater value found."
             )
+    if match_type == 1 and lookup_array:
+        return len(lookup_array)
+    if match_type == -1 and lookup_array:
+        return len(lookup_array)
     return xlerrors.NaExcelError("No match found.")
